@@ -468,10 +468,10 @@ pub fn spec() -> PropertySpec {
         level: "fault_enumeration",
         rule: "Same fault plans at three levels. (1) write_http_response into a scripted sink that fails after exactly k accepted bytes for EVERY k in 0..=len (responses <= 700 bytes quick / 4096 thorough; head/body boundaries +-1 and drawn k for larger ones), combined with short writes and Pending; body files missing, open error, read error at offset, truncated to {0,1,half,len-1,random}. (2) HttpConn::write_response on a simulated socket with the same faults, followed by further calls. (3) the full simulated server: server-side write error at k, client RST at k, client FIN-and-stop-reading at k, body-file faults. Oracle: R = fault-free serialisation of the same response (second execution); bytes on the wire are a prefix of R; after a partial send the write side is shut down and nothing else is ever written (no second status line); after a zero-byte failure one well-formed 500 is still possible; no task panic. probe.fault_offsets counts individual (response, k) executions. non-trivial = a fault that actually interferes.",
         scenarios: vec![
-            Scenario { name: "c08.writer_fault", property: "C08", func: writer_fault, runs_quick: 4_000, runs_thorough: 60_000, doc: "every sink-failure offset" },
-            Scenario { name: "c08.body_fault", property: "C08", func: body_fault, runs_quick: 60_000, runs_thorough: 2_000_000, doc: "body-source faults at the serialiser" },
-            Scenario { name: "c08.conn", property: "C08", func: conn_level, runs_quick: 60_000, runs_thorough: 2_000_000, doc: "HttpConn level" },
-            Scenario { name: "c08.server", property: "C08", func: server_level, runs_quick: 40_000, runs_thorough: 1_500_000, doc: "server level" },
+            Scenario { name: "c08.writer_fault", property: "C08", func: writer_fault, runs_quick: 20_000, runs_thorough: 300_000, doc: "every sink-failure offset" },
+            Scenario { name: "c08.body_fault", property: "C08", func: body_fault, runs_quick: 400_000, runs_thorough: 8_000_000, doc: "body-source faults at the serialiser" },
+            Scenario { name: "c08.conn", property: "C08", func: conn_level, runs_quick: 400_000, runs_thorough: 8_000_000, doc: "HttpConn level" },
+            Scenario { name: "c08.server", property: "C08", func: server_level, runs_quick: 300_000, runs_thorough: 6_000_000, doc: "server level" },
         ],
         required_probes: vec![
             "fault.writer_error", "fault.body_file_missing", "fault.body_file_truncated", "fault.fs_open", "fault.fs_read", "fault.server_write_error", "fault.client_rst", "fault.client_stops_reading",
